@@ -16,6 +16,7 @@ Proof.
   brk_hyp H; inversion H; subst; clear H.
   all: cbn [flat_map send_msgs app].
   all: cbn [op_ids].
+  all: pose proof (io_dg _ _ I) as [DG DGS].
   all: change (v_dict_brackets repaired) with false in *.
   all: (split; [ try solve [inv_tac I] | try solve [constructor] ]).
   all: try solve [ use_target L I; use_nodes L I; unfold pargroup_creation_cmd, group_creation_cmd, py_int in *;
@@ -41,6 +42,7 @@ Proof.
   brk_hyp H; inversion H; subst; clear H.
   all: cbn [flat_map send_msgs app].
   all: cbn [op_ids].
+  all: pose proof (io_dg _ _ I) as [DG DGS].
   all: change (v_dict_brackets repaired) with false in *.
   all: (split; [ try solve [inv_tac I] | try solve [constructor] ]).
   all: try solve [ use_target L I; use_nodes L I; unfold pargroup_creation_cmd, group_creation_cmd, py_int in *;
@@ -69,6 +71,7 @@ Proof.
   brk_hyp H; inversion H; subst; clear H.
   all: cbn [flat_map send_msgs app].
   all: cbn [op_ids].
+  all: pose proof (io_dg _ _ I) as [DG DGS].
   all: change (v_dict_brackets repaired) with false in *.
   all: (split; [ try solve [inv_tac I] | try solve [constructor] ]).
   all: try solve [ use_target L I; use_nodes L I; unfold pargroup_creation_cmd, group_creation_cmd, py_int in *;
@@ -93,6 +96,7 @@ Proof.
   brk_hyp H; inversion H; subst; clear H.
   all: cbn [flat_map send_msgs app].
   all: cbn [op_ids].
+  all: pose proof (io_dg _ _ I) as [DG DGS].
   all: change (v_dict_brackets repaired) with false in *.
   all: (split; [ try solve [inv_tac I] | try solve [constructor] ]).
   all: try solve [ use_target L I; use_nodes L I; unfold pargroup_creation_cmd, group_creation_cmd, py_int in *;
@@ -124,6 +128,7 @@ Proof.
   brk_hyp H; inversion H; subst; clear H.
   all: cbn [flat_map send_msgs app].
   all: cbn [op_ids].
+  all: pose proof (io_dg _ _ I) as [DG DGS].
   all: change (v_dict_brackets repaired) with false in *.
   all: (split; [ try solve [inv_tac I] | try solve [constructor] ]).
   all: try solve [ use_target L I; use_nodes L I; unfold pargroup_creation_cmd, group_creation_cmd, py_int in *;
@@ -148,6 +153,7 @@ Proof.
   brk_hyp H; inversion H; subst; clear H.
   all: cbn [flat_map send_msgs app].
   all: cbn [op_ids].
+  all: pose proof (io_dg _ _ I) as [DG DGS].
   all: change (v_dict_brackets repaired) with false in *.
   all: (split; [ try solve [inv_tac I] | try solve [constructor] ]).
   all: try solve [ use_target L I; use_nodes L I; unfold pargroup_creation_cmd, group_creation_cmd, py_int in *;
@@ -171,6 +177,7 @@ Proof.
   brk_hyp H; inversion H; subst; clear H.
   all: cbn [flat_map send_msgs app].
   all: cbn [op_ids].
+  all: pose proof (io_dg _ _ I) as [DG DGS].
   all: change (v_dict_brackets repaired) with false in *.
   all: (split; [ try solve [inv_tac I] | try solve [constructor] ]).
   all: try solve [ use_target L I; use_nodes L I; unfold pargroup_creation_cmd, group_creation_cmd, py_int in *;
@@ -194,6 +201,7 @@ Proof.
   brk_hyp H; inversion H; subst; clear H.
   all: cbn [flat_map send_msgs app].
   all: cbn [op_ids].
+  all: pose proof (io_dg _ _ I) as [DG DGS].
   all: change (v_dict_brackets repaired) with false in *.
   all: (split; [ try solve [inv_tac I] | try solve [constructor] ]).
   all: try solve [ use_target L I; use_nodes L I; unfold pargroup_creation_cmd, group_creation_cmd, py_int in *;
@@ -218,6 +226,7 @@ Proof.
   brk_hyp H; inversion H; subst; clear H.
   all: cbn [flat_map send_msgs app].
   all: cbn [op_ids].
+  all: pose proof (io_dg _ _ I) as [DG DGS].
   all: change (v_dict_brackets repaired) with false in *.
   all: (split; [ try solve [inv_tac I] | try solve [constructor] ]).
   all: try solve [ use_target L I; use_nodes L I; unfold pargroup_creation_cmd, group_creation_cmd, py_int in *;
@@ -242,6 +251,7 @@ Proof.
   brk_hyp H; inversion H; subst; clear H.
   all: cbn [flat_map send_msgs app].
   all: cbn [op_ids].
+  all: pose proof (io_dg _ _ I) as [DG DGS].
   all: change (v_dict_brackets repaired) with false in *.
   all: (split; [ try solve [inv_tac I] | try solve [constructor] ]).
   all: try solve [ use_target L I; use_nodes L I; unfold pargroup_creation_cmd, group_creation_cmd, py_int in *;
@@ -266,6 +276,7 @@ Proof.
   brk_hyp H; inversion H; subst; clear H.
   all: cbn [flat_map send_msgs app].
   all: cbn [op_ids].
+  all: pose proof (io_dg _ _ I) as [DG DGS].
   all: change (v_dict_brackets repaired) with false in *.
   all: (split; [ try solve [inv_tac I] | try solve [constructor] ]).
   all: try solve [ use_target L I; use_nodes L I; unfold pargroup_creation_cmd, group_creation_cmd, py_int in *;
@@ -291,6 +302,7 @@ Proof.
   brk_hyp H; inversion H; subst; clear H.
   all: cbn [flat_map send_msgs app].
   all: cbn [op_ids].
+  all: pose proof (io_dg _ _ I) as [DG DGS].
   all: change (v_dict_brackets repaired) with false in *.
   all: (split; [ try solve [inv_tac I] | try solve [constructor] ]).
   all: try solve [ use_target L I; use_nodes L I; unfold pargroup_creation_cmd, group_creation_cmd, py_int in *;
@@ -317,6 +329,7 @@ Proof.
   brk_hyp H; inversion H; subst; clear H.
   all: cbn [flat_map send_msgs app].
   all: cbn [op_ids].
+  all: pose proof (io_dg _ _ I) as [DG DGS].
   all: change (v_dict_brackets repaired) with false in *.
   all: (split; [ try solve [inv_tac I] | try solve [constructor] ]).
   all: try solve [ use_target L I; use_nodes L I; unfold pargroup_creation_cmd, group_creation_cmd, py_int in *;
@@ -345,6 +358,7 @@ Proof.
   brk_hyp H; inversion H; subst; clear H.
   all: cbn [flat_map send_msgs app].
   all: cbn [op_ids].
+  all: pose proof (io_dg _ _ I) as [DG DGS].
   all: change (v_dict_brackets repaired) with false in *.
   all: (split; [ try solve [inv_tac I] | try solve [constructor] ]).
   all: try solve [ use_target L I; use_nodes L I; unfold pargroup_creation_cmd, group_creation_cmd, py_int in *;
@@ -373,6 +387,7 @@ Proof.
   brk_hyp H; inversion H; subst; clear H.
   all: cbn [flat_map send_msgs app].
   all: cbn [op_ids].
+  all: pose proof (io_dg _ _ I) as [DG DGS].
   all: change (v_dict_brackets repaired) with false in *.
   all: (split; [ try solve [inv_tac I] | try solve [constructor] ]).
   all: try solve [ use_target L I; use_nodes L I; unfold pargroup_creation_cmd, group_creation_cmd, py_int in *;
@@ -402,6 +417,7 @@ Proof.
   brk_hyp H; inversion H; subst; clear H.
   all: cbn [flat_map send_msgs app].
   all: cbn [op_ids].
+  all: pose proof (io_dg _ _ I) as [DG DGS].
   all: change (v_dict_brackets repaired) with false in *.
   all: (split; [ try solve [inv_tac I] | try solve [constructor] ]).
   all: try solve [ use_target L I; use_nodes L I; unfold pargroup_creation_cmd, group_creation_cmd, py_int in *;
@@ -423,6 +439,7 @@ Proof.
   brk_hyp H; inversion H; subst; clear H.
   all: cbn [flat_map send_msgs app].
   all: cbn [op_ids].
+  all: pose proof (io_dg _ _ I) as [DG DGS].
   all: change (v_dict_brackets repaired) with false in *.
   all: (split; [ try solve [inv_tac I] | try solve [constructor] ]).
   all: try solve [ use_target L I; use_nodes L I; unfold pargroup_creation_cmd, group_creation_cmd, py_int in *;
@@ -444,6 +461,7 @@ Proof.
   brk_hyp H; inversion H; subst; clear H.
   all: cbn [flat_map send_msgs app].
   all: cbn [op_ids].
+  all: pose proof (io_dg _ _ I) as [DG DGS].
   all: change (v_dict_brackets repaired) with false in *.
   all: (split; [ try solve [inv_tac I] | try solve [constructor] ]).
   all: try solve [ use_target L I; use_nodes L I; unfold pargroup_creation_cmd, group_creation_cmd, py_int in *;
@@ -465,6 +483,7 @@ Proof.
   brk_hyp H; inversion H; subst; clear H.
   all: cbn [flat_map send_msgs app].
   all: cbn [op_ids].
+  all: pose proof (io_dg _ _ I) as [DG DGS].
   all: change (v_dict_brackets repaired) with false in *.
   all: (split; [ try solve [inv_tac I] | try solve [constructor] ]).
   all: try solve [ use_target L I; use_nodes L I; unfold pargroup_creation_cmd, group_creation_cmd, py_int in *;
@@ -496,6 +515,7 @@ Proof.
   brk_hyp H; inversion H; subst; clear H.
   all: cbn [flat_map send_msgs app].
   all: cbn [op_ids].
+  all: pose proof (io_dg _ _ I) as [DG DGS].
   all: change (v_dict_brackets repaired) with false in *.
   all: (split; [ try solve [inv_tac I] | try solve [constructor] ]).
   all: try solve [ use_target L I; use_nodes L I; unfold pargroup_creation_cmd, group_creation_cmd, py_int in *;
@@ -517,6 +537,7 @@ Proof.
   brk_hyp H; inversion H; subst; clear H.
   all: cbn [flat_map send_msgs app].
   all: cbn [op_ids].
+  all: pose proof (io_dg _ _ I) as [DG DGS].
   all: change (v_dict_brackets repaired) with false in *.
   all: (split; [ try solve [inv_tac I] | try solve [constructor] ]).
   all: try solve [ use_target L I; use_nodes L I; unfold pargroup_creation_cmd, group_creation_cmd, py_int in *;
